@@ -497,6 +497,10 @@ mismatch between values and axes""".format(inferred, self.values.shape)
     def dtype(self): 
         return self.values.dtype
 
+    # NumPy scalars and arrays on the left of an operator (np.float64(2) - a, a.mean() - a) defer to the
+    # reflected method of this class instead of consuming `a` as a plain array and dropping its axes
+    __array_priority__ = 100
+
     @property
     def __array__(self): 
         """ so that np.array() works as expected (returns values)
